@@ -100,3 +100,49 @@ Fixpoint udp_loop (checked debug : bool) (ps : list bytes) : list pkt * bool :=
     | o => let '(os, alive) := udp_loop checked debug rest in (o :: os, alive)
     end
   end.
+
+(* ---------- second pass of StreamingDecoder::decode over the split-off frame ---------- *)
+(* the PullParser is run again from offset 0 over the frame; where it stops is the head end used for the body slice *)
+Fixpoint second_head (fuel : nat) (frame : bytes) (p : nat) : option nat :=
+  match fuel with
+  | O => None
+  | S f =>
+    match pull_next frame p with
+    | Line _ _ next => second_head f frame next
+    | EndOfHead => Some p
+    | _ => None
+    end
+  end.
+
+(* the Headers value the second pass builds: malformed header lines are logged and skipped *)
+Fixpoint lenient_headers (fuel : nat) (frame : bytes) (p : nat) (first : bool) (acc : list (bytes * bytes)) : list (bytes * bytes) :=
+  match fuel with
+  | O => acc
+  | S f =>
+    match pull_next frame p with
+    | Line lo hi next =>
+      if first then lenient_headers f frame next false acc
+      else match parse_header_line (sub frame lo hi) with
+           | Some nv => lenient_headers f frame next false (acc ++ [nv])
+           | None => lenient_headers f frame next false acc
+           end
+    | _ => acc
+    end
+  end.
+
+Inductive sp := SpOk (he : nat) (body : bytes) | SpMalformed | SpPanic.
+
+(* [saved] = the body length is the one the first pass stored (Gen.Tables.stream_body_len_saved says which form the
+   source has); the other form decodes Content-Length again from the parsed headers (first value) *)
+Definition second_pass (saved : bool) (frame : bytes) (cl : N) : sp :=
+  match second_head (S (length frame)) frame 0 with
+  | None => SpMalformed
+  | Some p =>
+    let he := head_end frame p in
+    let n := if saved then cl
+             else match header_content_length (lenient_headers (S (length frame)) frame 0 true []) with Some n => n | None => 0%N end in
+    match slice frame (N.of_nat he) (N.of_nat he + n) with
+    | Some b => SpOk he b
+    | None => SpPanic
+    end
+  end.
